@@ -460,6 +460,55 @@ def sweep(ctx, rd, hdk):
             shutil.rmtree(p, ignore_errors=True)
 
 
+def shipped_examples(ctx, rd, hdk):
+    """real (slightly noisy) phonon data: the two intact shipped examples with node-based and polynomial
+    interpolators at the orders where a wrong node budget makes the extrapolation run away"""
+    import yaml
+    from vlib import REPO
+    quick = ctx.tier == "quick"
+    plans = [("akimotoite", "trigonal7", [("krogh", 6), ("lagrange", 5), ("pchip", 4)])] if quick else [
+        ("akimotoite", "trigonal7", [(m, o) for m in ("krogh", "lagrange", "pchip", "akima") for o in (2, 3, 4, 5, 6, 7)]
+         + [("lsq_poly", o) for o in (1, 2, 3, 4, 5)] + [("spline", o) for o in (2, 3, 4, 5)]),
+        ("diopside", "monoclinic", [("krogh", 4), ("lagrange", 6), ("lsq_poly", 3), ("spline", 3)])]
+    work = rd / "shipped"
+    cwd = os.getcwd()
+    done = 0
+    for name, system, combos in plans:
+        src = REPO / "examples" / name
+        base = yaml.safe_load((src / "settings.yaml").read_text())
+        for method, order in combos:
+            d = work / ("%s_%s_%d" % (name, method, order))
+            d.mkdir(parents=True, exist_ok=True)
+            for f in ("input01", base["elast"]["input"]):
+                shutil.copy(src / f, d / f)
+            s = dict(base)
+            s["qha"] = dict(input="input01", settings=dict(base["qha"]["settings"], NT=4, DT=400, DT_SAMPLE=400, NTV=11,
+                                                           DELTA_P=2.0, DELTA_P_SAMPLE=2.0))
+            s["elast"] = dict(input=base["elast"]["input"], settings=dict(mode_gamma=dict(interpolator=method, order=order),
+                                                                          symmetry=dict(system=system)))
+            (d / "settings.yaml").write_text(yaml.safe_dump(s, sort_keys=False))
+            cfg = dict(interpolator=method, order=order, system=system, DT=400, T_MIN=0, keys=[], example=name)
+            desc = dict(config=cfg, dataset="/repo/examples/%s with interpolator %s order %d" % (name, method, order))
+            ctx.case(dict(example=name, method=method, order=order), nontrivial=True)
+            ctx.count("calc: shipped example %s" % name)
+            os.chdir(d)
+            try:
+                with numpy.errstate(all="ignore"):
+                    calc = synth.run_calculator(d / "settings.yaml")
+            except Exception as ex:
+                msg = "%s: %s" % (type(ex).__name__, ex)
+                ctx.failure("calculator-raises-%s" % method, "Calculator raises %s on the shipped %s example "
+                            "(interpolator %s order %d)" % (msg, name, method, order), input=desc,
+                            expected="completes", observed=msg)
+                continue
+            finally:
+                os.chdir(cwd)
+            done += 1
+            check_calculator(ctx, cfg, calc, desc, hdk)
+            shutil.rmtree(d, ignore_errors=True)
+    ctx.extra["shipped_example_runs"] = done
+
+
 # ---------------------------------------------------------------------------------------------
 
 def run(ctx):
@@ -522,3 +571,4 @@ def run(ctx):
 
     # (b) + search: Calculator sweep
     sweep(ctx, rd, consts[0])
+    shipped_examples(ctx, rd, consts[0])
